@@ -19,6 +19,7 @@ import (
 	"fmt"
 
 	epb "github.com/google/gce-tcb-verifier/proto/endorsement"
+	"github.com/google/go-tdx-guest/abi"
 	tcpb "github.com/google/go-tdx-guest/proto/checkconfig"
 	"google.golang.org/protobuf/proto"
 )
@@ -67,7 +68,17 @@ func TdxPolicy(ctx context.Context, endorsement *epb.VMLaunchEndorsement, opts *
 		if opts.RAMGiB != 0 && m.GetRamGib() != uint32(opts.RAMGiB) {
 			continue
 		}
+		// An empty allow-list, or a zero-length entry in it, leaves the MRTD unchecked downstream.
+		if len(m.GetMrtd()) != abi.MrTdSize {
+			continue
+		}
 		mrtds = append(mrtds, m.GetMrtd())
+	}
+	if len(mrtds) == 0 {
+		if opts.RAMGiB != 0 {
+			return nil, fmt.Errorf("endorsement has no tdx measurement for %d GiB of RAM", opts.RAMGiB)
+		}
+		return nil, fmt.Errorf("endorsement has no tdx measurement")
 	}
 	if err := modifyTdxPolicy(result, mrtds, opts); err != nil {
 		return nil, err
